@@ -21,6 +21,7 @@ import (
 	"io"
 	"os"
 	"os/exec"
+	"regexp"
 	"strings"
 	"time"
 
@@ -378,7 +379,7 @@ func run(ctx *common.Ctx) error {
 	}
 
 	emitGeneric := func(data []byte, resp *response) {
-		if resp == nil || len(data) > 400 || defs.Len() > 45000 {
+		if resp == nil || len(data) > 400 || defs.Len() > ctx.Budget(45000, 150000) {
 			return
 		}
 		name := fmt.Sprintf("G%d", nextID())
@@ -400,7 +401,7 @@ func run(ctx *common.Ctx) error {
 			lines = append(lines, fmt.Sprintf("CHeader %d (firstn %d %s) %s", nextID(), len(hdr), name, obs))
 			modelCases++
 		}
-		if resp.Err == "" && resp.Body != nil && wfCases < 45 {
+		if resp.Err == "" && resp.Body != nil && wfCases < ctx.Budget(45, 150) {
 			for _, t := range [][]byte{resp.Body, resp.Structure, resp.Envelope} {
 				if len(t) <= 300 {
 					lines = append(lines, fmt.Sprintf("CWf %d %s", nextID(), common.CoqBytes(t)))
@@ -529,8 +530,31 @@ func run(ctx *common.Ctx) error {
 		}
 	}
 
+	// ----- (a0) minimal witnesses of recorded findings run first (their canonical form is fixed) -----
+	// message/rfc822 that embeds a multipart: structure() looks at the number of children only (notes/C12-defects.md C12-2)
+	knownShape := regexp.MustCompile(`: message/rfc822: \d+ elements, want \d+$`)
+	msgMultipartFails := false
+	{
+		leaf := &mimegen.Node{Type: "text", Sub: "plain", Body: []byte("x")}
+		multi := &mimegen.Node{HasCT: true, Type: "multipart", Sub: "mixed", Boundary: "B1", Params: []mimegen.Param{{K: "boundary", V: "B1"}}, Children: []*mimegen.Node{leaf}}
+		w := &mimegen.Node{HasCT: true, Type: "message", Sub: "rfc822", Embedded: multi}
+		m := mimegen.Render(w, &mimegen.Layout{Rng: common.NewRng(1)})
+		resp, err := checkGeneric("tree "+mimegen.Shape(w), m, true)
+		if err != nil {
+			return err
+		}
+		res.Count("witness")
+		if resp != nil {
+			if v := structureOracle(w, m, resp); v != "" {
+				msgMultipartFails = true
+				fail("STRUCTURE "+mimegen.Shape(w)+" :: "+v, "the structure reported for a well-formed message is not the tree it was built from: "+v,
+					map[string]interface{}{"shape": mimegen.Shape(w), "message": string(m), "tree": w, "msg": m})
+			}
+		}
+	}
+
 	// ----- (a) generated well-formed trees -----
-	nTrees := ctx.Budget(260, 3000)
+	nTrees := ctx.Budget(260, 8000)
 	structCases := 0
 	seenStructFail := map[string]bool{}
 	for i := 0; i < nTrees; i++ {
@@ -562,6 +586,11 @@ func run(ctx *common.Ctx) error {
 			res.Sample(map[string]interface{}{"shape": shape, "message": string(msg), "bodystructure": string(resp.Structure), "envelope": string(resp.Envelope)})
 		}
 		verdict := structureOracle(tree, msg, resp)
+		if verdict != "" && msgMultipartFails && knownShape.MatchString(verdict) && strings.Contains(shape, "message/rfc822{multipart/") {
+			// explained by the witness above; the model follows the code for this shape, so the case still goes to cases.v
+			res.Count("tree-with-message-embedding-multipart")
+			verdict = ""
+		}
 		if verdict != "" {
 			// shrink to a minimal tree that still fails, normalised
 			fails := func(t *mimegen.Node) bool {
@@ -617,7 +646,7 @@ func run(ctx *common.Ctx) error {
 	}
 
 	// ----- (b4) random garbage -----
-	nGarbage := ctx.Budget(250, 4000)
+	nGarbage := ctx.Budget(250, 12000)
 	for i := 0; i < nGarbage; i++ {
 		n := []int{5, 20, 60, 150, 300, 2000}[rng.Pick(6)]
 		data := randomGarbage(rng, n)
